@@ -37,7 +37,7 @@ def one(d):
 
 if __name__ == '__main__':
     dirs = sorted(str(x) for x in (VERIF / 'seeded').glob('C*-*') if x.is_dir())
-    with ProcessPoolExecutor(8) as ex:
+    with ProcessPoolExecutor(7) as ex:
         res = dict(ex.map(one, dirs))
     miss = [k for k, v in res.items() if not v or v == 'PATCH DOES NOT APPLY']
     own_miss = []
